@@ -75,8 +75,10 @@ def gen_atom(rng, names, rich, ctx):
     if k < 0.92:
         w = rng.choice(names)
         return ["pred", "BothPositive", [["var", v], ["var", w]]]
-    if k < 0.94:
+    if k < 0.93:
         return ["pred", "AGreater", [["var", v], ["lit", rng.randint(0, 1)]]]
+    if k < 0.94:
+        return ["pred", "IntGreater", [["lit", rng.randint(0, 2)], ["lit", rng.randint(0, 2)]]]
     if k < 0.95:
         return ["hastype", ["var", v], "Q"]
     if k < 0.96:
